@@ -138,3 +138,99 @@ def run_evaluate(prog: Program, ev: Obj, labels=None, call_kwargs=None):
 
     outs = enumerate_paths(make, max_paths=64)
     return f, list(zip(outs, holder))
+
+
+# ----------------------------------------------------------------------------------------
+# panoptic_evaluate
+# ----------------------------------------------------------------------------------------
+
+
+class PipelineInterp(EvalInterp):
+    """panoptic_evaluate with the three stages and the result constructor as observation points."""
+
+    def __init__(self, *a, **kw):
+        super().__init__(*a, **kw)
+        self.root.stages = []
+
+    def _mkpair(self, cls_name: str, tag: str, n_pred=3, n_ref=4, matched=None) -> Obj:
+        cls = self.prog.cls("utils.processing_pair:" + cls_name)
+        pa, ra = AArr("PRED", True), AArr("REF", True)
+        pa.stage, ra.stage = tag, tag
+        attrs = {"_prediction_arr": pa, "_reference_arr": ra, "_pred_labels": (1, 2, 3), "_ref_labels": (1, 2, 3, 4), "n_prediction_instance": n_pred, "n_reference_instance": n_ref, "crop": None, "is_cropped": False, "uncropped_shape": Sym("SHAPE"), "n_dim": 3, "dtype": None}
+        if cls_name == "MatchedInstancePair":
+            attrs.update({"matched_instances": [1, 2, 3], "missed_reference_labels": [4], "missed_prediction_labels": []})
+        return Obj(cls, attrs)
+
+    def external_call(self, name, args, kwargs, node):
+        r = self.root
+        short = name.split(":")[-1]
+        if short.endswith("approximate_instances"):
+            args = list(args) + [getattr(r, "last_receiver", None)]
+            r.stages.append(("approximate", args, kwargs, node))
+            return self._mkpair("UnmatchedInstancePair", "approximated")
+        if short.endswith("match_instances") and not short.endswith("_match_instances"):
+            args = list(args) + [getattr(r, "last_receiver", None)]
+            r.stages.append(("match", args, kwargs, node))
+            return self._mkpair("MatchedInstancePair", "matched")
+        if short == "evaluate_matched_instance":
+            r.stages.append(("evaluate", args, kwargs, node))
+            cls = self.prog.cls("utils.processing_pair:EvaluateInstancePair")
+            return Obj(cls, {"reference_arr": Sym("E_REF"), "prediction_arr": Sym("E_PRED"), "num_pred_instances": Sym("E_NPRED"), "num_ref_instances": Sym("E_NREF"), "tp": Sym("E_TP"), "list_metrics": Sym("E_LISTS")})
+        if short in ("PanopticaResult", "PanopticaResult.__init__"):
+            r.stages.append(("result", args, kwargs, node))
+            return Obj(self.prog.cls("panoptica_result:PanopticaResult"), {"_tag": "RESULT"})
+        if short.endswith("calculate_all"):
+            r.stages.append(("calculate_all", args, kwargs, node))
+            return None
+        if short == "_get_paired_crop":
+            r.stages.append(("crop", args, kwargs, node))
+            return Sym("CROP")
+        return super().external_call(name, args, kwargs, node)
+
+    def subscript_hook(self, base, idx, node):
+        if isinstance(base, AArr) and idx == Sym("CROP"):
+            v = AArr(base.side, base.fresh, base.content, base.selection, origin=base)
+            v.cropped = True
+            v.stage = getattr(base, "stage", "input")
+            return v
+        return super().subscript_hook(base, idx, node)
+
+
+def run_pipeline(prog: Program, input_cls: str, result_all=True, approximator=True, matcher=True):
+    f = prog.func("panoptica_evaluator:panoptic_evaluate")
+    names = [p.name for p in f.call_params]
+    for need in ["input_pair", "instance_approximator", "instance_matcher", "instance_metrics", "global_metrics", "decision_metric", "decision_threshold", "edge_case_handler", "result_all"]:
+        if need not in names:
+            raise AnchorMissing(f"panoptic_evaluate has no parameter {need}")
+    holder = []
+    acls = prog.cls("instance_approximator:InstanceApproximator")
+    mcls = prog.cls("instance_matcher:InstanceMatchingAlgorithm")
+    rcls = prog.cls("panoptica_result:PanopticaResult")
+
+    def make(prefix):
+        from .resultrun import metric_objs
+
+        ms = metric_objs(prog)
+        it = PipelineInterp(prog, f, {}, prefix=prefix, metrics=ms)
+        it.root.P_instance_metrics = ms[:3]
+        it.root.P_global_metrics = ms[:1]
+        pair = it._mkpair(input_cls, "input")
+        for a in (pair.attrs["_prediction_arr"], pair.attrs["_reference_arr"]):
+            a.fresh = False
+        args = {"input_pair": pair, "instance_approximator": Obj(acls, {"_tag": "APPROX"}) if approximator else None, "instance_matcher": Obj(mcls, {"_tag": "MATCHER"}) if matcher else None, "instance_metrics": it.root.P_instance_metrics, "global_metrics": it.root.P_global_metrics, "decision_metric": Sym("P_decision_metric"), "decision_threshold": Sym("P_decision_threshold"), "edge_case_handler": Sym("P_edge_case_handler"), "result_all": result_all, "log_times": False, "verbose": False, "verbose_calc": Sym("P_verbose_calc")}
+        it.env.update(args)
+        ni = {prog.func("instance_evaluator:evaluate_matched_instance").qual, rcls.lookup("__init__").qual, rcls.lookup("calculate_all").qual, prog.func("_functionals:_get_paired_crop").qual, prog.func("utils.numpy_utils:_unique_without_zeros").qual, prog.func("utils.numpy_utils:_count_unique_without_zeros").qual, prog.func("utils.processing_pair:_check_array_integrity").qual}
+        for c in [acls] + acls.all_subclasses():
+            m = c.methods.get("approximate_instances")
+            if m:
+                ni.add(m.qual)
+        for c in [mcls] + mcls.all_subclasses():
+            m = c.methods.get("match_instances")
+            if m:
+                ni.add(m.qual)
+        it.root.no_inline = ni
+        holder.append((it, pair))
+        return it
+
+    outs = enumerate_paths(make, max_paths=64)
+    return f, list(zip(outs, holder))
